@@ -232,7 +232,28 @@ def _transfer_completion(code_i, has_reply, data_fails, multi):
     return data.eof_seen and has_reply and code == '226' and reply.code == 226 and b''.join(sink.parts) == b'abc'
 
 
-def _session_completion(code_i, has_reply, data_fails, multi, listing=False, empty=False):
+class _BrokenDataConn:
+    """A data connection over which `pieces` arrive and which then stalls / is reset: read() raises a network error (what
+    Connection.read does on a read timeout or a reset)."""
+    def __init__(self, pieces):
+        self.pieces = list(pieces)
+        self._closed = False
+
+    @asyncio.coroutine
+    def read(self, n=-1):
+        if self.pieces:
+            return self.pieces.pop(0)
+        from wpull.errors import NetworkTimedOut
+        raise NetworkTimedOut('Connection timed out.')
+
+    def close(self):
+        self._closed = True
+
+    def closed(self):
+        return self._closed
+
+
+def _session_completion(code_i, has_reply, data_fails, multi, listing=False, empty=False, real_stream=False):
     """The same through Session.download: the `end_transfer` event (what the WARC recorder turns into a resource record) is published
     exactly when the transfer completed."""
     import io
@@ -256,6 +277,10 @@ def _session_completion(code_i, has_reply, data_fails, multi, listing=False, emp
         sess._commander = Commander(ControlStream(FakeConnection(wire)))
         content = [] if empty else ([b'-rw-r--r-- 1 u g 3 Jan  1  2015 ', b'f.txt\r\n'] if listing else [b'ab', b'c'])
         data = _FakeData(content, data_fails)
+        if real_stream and data_fails:
+            # the REAL DataStream over a data connection that delivers the content and then stalls (no EOF)
+            from wpull.protocol.ftp.stream import DataStream
+            data = DataStream(_BrokenDataConn(content))
         sess._data_stream = data
         sess._request = FRequest('ftp://h.example/f' if not listing else 'ftp://h.example/d/')
         if listing:
@@ -337,11 +362,11 @@ HARNESSES = [
       funcs=['wpull/protocol/ftp/stream.py:ControlStream.read_reply'],
       doc='a reply line over the 64 KiB reader limit (first or continuation line, 5 tails that look like a final line) delivered in one '
           'piece or with a pause inside the line (the stream reader then discards only the part received): same outcome either way'),
-    H('session_completion', '_session_completion', 'code_i: int, has_reply: bool, data_fails: bool, multi: bool, listing: bool, empty: bool',
-      pre=['0 <= code_i <= 9'], timeout={'quick': 200, 'thorough': 300}, samples=[(0, True, False, False, False, False), (1, True, False, True, False, False), (0, False, False, False, False, False), (8, True, False, False, True, True)],
+    H('session_completion', '_session_completion', 'code_i: int, has_reply: bool, data_fails: bool, multi: bool, listing: bool, empty: bool, real_stream: bool',
+      pre=['0 <= code_i <= 9'], timeout={'quick': 200, 'thorough': 300}, samples=[(0, True, False, False, False, False, False), (1, True, False, True, False, False, False), (0, False, False, False, False, False, False), (8, True, False, False, True, True, False), (0, True, True, False, False, False, True)],
       need=['complete', 'incomplete'],
       funcs=['wpull/protocol/ftp/client.py:Session.download', 'wpull/protocol/ftp/command.py:Commander.read_stream'],
-      doc='Session.download and Session.download_listing (also with no data bytes at all) over the same cases: it returns and publishes end_transfer (the recorder\'s cue to write the resource '
+      doc='Session.download and Session.download_listing (also with no data bytes at all; also through the real DataStream over a data connection that stalls) over the same cases: it returns and publishes end_transfer (the recorder\'s cue to write the resource '
           'record) only for a transfer whose data connection reached EOF and that the server confirmed with 226; every failure raises '
           'and publishes nothing'),
     H('transfer_completion', '_transfer_completion', 'code_i: int, has_reply: bool, data_fails: bool, multi: bool',
